@@ -295,7 +295,7 @@ Section WithGit.
   (* ---------- one layer ---------- *)
 
   Definition has_overrides (l : layer) : bool :=
-    negb (is_empty_list (list_files (l_abs_meta l) (l_files l))).
+    negb (is_empty_list (list_files (l_files l))).
   Definition has_patches (l : layer) : bool := negb (is_empty_list (patch_entries (l_files l))).
 
   Lemma apply_layer_absent l out : l_exists l = false -> apply_layer l out = Ok out.
@@ -517,9 +517,9 @@ Section WithGit.
   Qed.
 End WithGit.
 
-(* ---------- list_files: relative filter vs the absolute one (F10) ---------- *)
+(* ---------- list_files ---------- *)
 
-Lemma list_files_rel_nonempty t r c : In (r, c) t -> is_meta r = false -> list_files false t <> [].
+Lemma list_files_nonempty t r c : In (r, c) t -> is_meta r = false -> list_files t <> [].
 Proof.
   intros Hin Hr E. unfold list_files in E.
   assert (Hf : In (r, c) (filter (fun e => negb (is_meta (fst e))) t)).
@@ -548,23 +548,3 @@ rename to g2.txt
 Lemma multi_section_accepted :
   header_check wit_multi_patch (s "f.txt") = HOk /\ single_section wit_multi_patch = false.
 Proof. split; vm_compute; reflexivity. Qed.
-
-(* F10 / K13d: under the absolute-path filter a patch-kind overlay with stray override files is
-   not refused (and with the relative filter it is) *)
-Definition wit_mixed_files : files :=
-  [([s "g.txt"], Text (s "over"));
-   ([dot_agentpack; c_patches; s "f.txt.patch"],
-    Text (s "--- a/f.txt
-+++ b/f.txt
-@@ -1 +1 @@
--l1
-+L1
-"))].
-
-Lemma mixed_undetected_abs :
-  let lower := [([s "f.txt"], Text (s "l1")); ([s "g.txt"], Text (s "g1"))] in
-  let ap := fun _ _ : str => Some (s "L1") in
-  apply_layer ap (mkLayer true false (MKind KPatch) wit_mixed_files) lower = Err EConfigInvalid /\
-  exists out, apply_layer ap (mkLayer true true (MKind KPatch) wit_mixed_files) lower = Ok out /\
-              get [s "g.txt"] out = Some (Text (s "g1")).
-Proof. split; [vm_compute; reflexivity|]. eexists. split; vm_compute; reflexivity. Qed.
